@@ -120,14 +120,24 @@ package aggregate
 // operator delivers at position i of its batch; a k that does not fit an int64 (NaN included) is an
 // error, as in the reference engine (statement of C04).
 //@ func (*kAggregate).init
-//@   trusted not yet under contract (label hashing into heaps)
-//@   requires a != nil && ctx != nil
+//@   requires a != nil && ctx != nil && a.next != nil && a.vectorPool != nil && !isnil(a.compare) && isnil(a.heaps) && isnil(a.inputToHeap) && len(a.heaps) == 0 && len(a.inputToHeap) == 0
 //@   panics may
-//@   assigns aggregate.kAggregate.series, aggregate.kAggregate.inputToHeap, aggregate.kAggregate.heaps, ghost hidx, model.VectorPool.stepSize
-//@   ensures result == nil ==> kInv(a) && heapsEmpty(a) && len(a.inputToHeap) == a.next.nSeries
+//@   assigns aggregate.kAggregate.series, aggregate.kAggregate.inputToHeap, aggregate.kAggregate.heaps, ghost hidx, model.VectorPool.stepSize, elems(*aggregate.samplesHeap)
+//@   ghostvar mw seqint = constseq(-1)
+//@   at line "hapsHash[hash] = h" set mw = store(mw, hash, len(a.heaps))
+//@   at line "a.inputToHeap = append(a.inputToHeap, h)" set a.hidx = store(a.hidx, len(a.inputToHeap), mw[hash])
+//@   ensures[C15] series-error-surfaces: callres("model.VectorOperator.Series", 1, 1) != nil ==> result != nil
+//@   ensures[C04,C13] every-input-series-has-a-heap-of-the-operator: result == nil ==> kInv(a) && heapsEmpty(a) && len(a.inputToHeap) == a.next.nSeries
+//@   loop 0 invariant shape: a != nil && a.vectorPool != nil && !isnil(a.compare) && 0 <= i && i <= len(series) && len(a.inputToHeap) == i && len(series) == a.next.nSeries && !isnil(hapsHash)
+//@   loop 0 invariant separate-lists: (isnil(a.heaps) || fresh(a.heaps)) && (isnil(a.inputToHeap) || fresh(a.inputToHeap)) && (isnil(a.heaps) || ref(a.heaps) != ref(a.inputToHeap)) &&
+//@       allocated(a.heaps) && allocated(a.inputToHeap) && (isnil(a.heaps) ==> len(a.heaps) == 0) && (isnil(a.inputToHeap) ==> len(a.inputToHeap) == 0)
+//@   loop 0 invariant heaps-so-far: forall j in 0..len(a.heaps) :: a.heaps[j] != nil && allocated(a.heaps[j]) && !isnil(a.heaps[j].compare) && len(a.heaps[j].entries) == 0
+//@   loop 0 invariant map-values-are-heaps-of-the-operator: forall k in ALL..ALL :: has(hapsHash, k) ==> 0 <= mw[k] && mw[k] < len(a.heaps) && hapsHash[k] == a.heaps[mw[k]]
+//@   loop 0 invariant inputs-so-far: forall j in 0..len(a.inputToHeap) :: 0 <= a.hidx[j] && a.hidx[j] < len(a.heaps) && a.inputToHeap[j] == a.heaps[a.hidx[j]]
 //@ func (*kAggregate).Next
 //@   requires ctx != nil && a != nil && a.next != nil && a.paramOp != nil && a.paramOp.oneSamplePerStep && a.vectorPool != nil && allocated(a.params)
 //@   requires heaps-built-once: a.once != 0 ==> kInv(a) && heapsEmpty(a) && len(a.inputToHeap) == a.next.nSeries
+//@   requires not-built-yet: a.once == 0 ==> !isnil(a.compare) && isnil(a.heaps) && isnil(a.inputToHeap) && len(a.heaps) == 0 && len(a.inputToHeap) == 0
 //@   panics may
 //@   ensures[C15] child-error-surfaces: ncalls("model.VectorOperator.Next") >= 1 && callres("model.VectorOperator.Next", 1, 1) != nil ==> result1 != nil
 //@   ensures[C15] second-child-error-surfaces: ncalls("model.VectorOperator.Next") >= 2 && callres("model.VectorOperator.Next", 2, 1) != nil ==> result1 != nil
